@@ -113,4 +113,14 @@ PROPS = {
                 'non-trivial/distinct = distinct mutation lists that were executed without panic',
         'assumptions': ['panics inside third-party decoders, stack/heap exhaustion and timeouts are only exercised, not modelled'],
     },
+    'C13': {
+        'lean': ['Netpol.Properties.C13'],
+        'families': [('baddoc', 700, 30000)],
+        'shard_min': 60,
+        'rule': 'valid worlds plus 1-3 injected documents of 18 kinds (other kinds, CRD instances, list kinds, documents without kind, truncated / tab-indented / binary / non-YAML text, '
+                'empty files, known kinds failing schema conversion) placed in own files (sorting before or after the good file), nested directories or appended to the good file; '
+                'with and without stop-on-first-error; list and diff (both orders). Every injection is classified by the real scanner at generation time (ignored / unreadable / malformed) '
+                'and the model predicts the outcome from the classes. distinct = distinct (injections, result)',
+        'assumptions': ['bytes -> documents is the third-party scanner: observed, not proved'],
+    },
 }
